@@ -166,7 +166,7 @@ class RunStateBinding(Binding):
             if t in TAGVARS:
                 return TAGVARS[t]
         if isinstance(expr, ast.Name):
-            if expr.id == "command_name" and f.name == "_validate_control_command":
+            if f.name == "_validate_control_command" and len(f.node.args.args) > 1 and expr.id == f.node.args.args[1].arg:
                 return "cmd"
             sn = getattr(self, "snap", {}).get((id(f.node), expr.id))
             if sn is not None:
@@ -175,6 +175,30 @@ class RunStateBinding(Binding):
             if d is not None and not isinstance(d, ast.Name):
                 return self.read(d, f)
         return None
+
+    def table_value(self, expr, f, state):
+        """A local bound to `<module dict constant>.get(<key>)` / `[<key>]` where <key> is a domain variable: the literal stored
+        under the key's current value - ("list", ast node) / ("none",) - or None if expr is no such local."""
+        if not isinstance(expr, ast.Name):
+            return None
+        dv = local_single_defs(f).get(expr.id)
+        tbl = key = None
+        if isinstance(dv, ast.Call) and call_attr(dv) == "get" and isinstance(dv.func, ast.Attribute) and isinstance(dv.func.value, ast.Name) \
+                and dv.args and (len(dv.args) == 1 or (isinstance(dv.args[1], ast.Constant) and dv.args[1].value is None)):
+            tbl, key = dv.func.value.id, dv.args[0]
+        elif isinstance(dv, ast.Subscript) and isinstance(dv.value, ast.Name):
+            tbl, key = dv.value.id, dv.slice
+        if tbl is None:
+            return None
+        const = f.module.constants.get(tbl)
+        kv = self.read(key, f)
+        if not isinstance(const, ast.Dict) or kv is None:
+            return None
+        cur = sd(state)[kv]
+        for k_, v_ in zip(const.keys, const.values):
+            if k_ is not None and self.const(k_, f, kv) == cur:
+                return ("list", v_) if isinstance(v_, (ast.List, ast.Tuple, ast.Set)) else None
+        return ("none",)
 
     def const(self, expr, f, var=None):
         if isinstance(expr, ast.Attribute) and isinstance(expr.value, ast.Name):
